@@ -42,7 +42,7 @@ def run(ctx):
         ctx.error('C05.D1', 'decode cascade: %s' % e)
         return
     ctx.count('decode cascade entries', len(entries))
-    ctx.floor('decode cascade entries', len(entries), 20)
+    ctx.floor('decode cascade entries', len(entries), 16)
     _spellings(ctx, entries)
     _python_values(ctx, entries)
     _structure(ctx)
